@@ -616,6 +616,7 @@ func runParent(chk *Check, tier string, seed int64) int {
 	nviol := 0
 	var knownHit []string
 	rdir := filepath.Join(VerifRoot, "replays", chk.ID)
+	os.RemoveAll(rdir) //nolint:errcheck
 	for _, s := range sigs {
 		g := merged.Groups[s]
 		h := fnv.New64a()
@@ -635,7 +636,11 @@ func runParent(chk *Check, tier string, seed int64) int {
 		}
 		nviol++
 		fmt.Printf("VIOLATION property=%s replay=%s\n", chk.ID, rp)
-		fmt.Printf("  signature: %s\n  what: %s\n  cases: %d (first: %s)\n", g.Sig, oneLine(g.What, 400), g.Count, g.CaseID)
+		if nviol <= 25 {
+			fmt.Printf("  signature: %s\n  what: %s\n  cases: %d (first: %s)\n", g.Sig, oneLine(g.What, 400), g.Count, g.CaseID)
+		} else {
+			fmt.Printf("  signature: %s (%d cases)\n", g.Sig, g.Count)
+		}
 	}
 
 	// evidence
@@ -938,4 +943,38 @@ func afterGoroutine(s string) string {
 		return s[i:]
 	}
 	return s
+}
+
+// ErrClass normalises an error message into a class (no values, no digits).
+func ErrClass(err error) string {
+	msg := err.Error()
+	if i := strings.IndexByte(msg, '\n'); i >= 0 {
+		msg = msg[:i]
+	}
+	msg = reQuoted.ReplaceAllString(msg, `"…"`)
+	msg = reHex.ReplaceAllString(msg, "0x…")
+	msg = reDigits.ReplaceAllString(msg, "N")
+	if len(msg) > 100 {
+		msg = msg[:100]
+	}
+	return msg
+}
+
+var reSpace = regexp.MustCompile(`\s+`)
+
+// ErrTail is the innermost cause of an error chain ("a: b: c" -> "c"),
+// normalised (no digits, no quoted values, single spaces).
+func ErrTail(err error) string {
+	msg := strings.ReplaceAll(err.Error(), "\n", " ")
+	if i := strings.LastIndex(msg, ": "); i >= 0 {
+		msg = msg[i+2:]
+	}
+	msg = reQuoted.ReplaceAllString(msg, `"…"`)
+	msg = reHex.ReplaceAllString(msg, "0x…")
+	msg = reDigits.ReplaceAllString(msg, "N")
+	msg = strings.TrimSpace(reSpace.ReplaceAllString(msg, " "))
+	if len(msg) > 80 {
+		msg = msg[:80]
+	}
+	return msg
 }
